@@ -105,7 +105,7 @@ bad_serial = [c for c in cases if malformed(c)]
 good = [c for c in cases if not malformed(c)]
 # balance shards by cost ~ blocks^2
 good.sort(key=lambda c: -c["Stats"]["Blocks"])
-nshard = 8
+nshard = 16 if ck.thorough() else 8
 shards = [[] for _ in range(nshard)]
 load = [0] * nshard
 for c in good:
